@@ -46,9 +46,26 @@ def Atomic (c : Cfg) : Prop :=
     lossyImageAt (cleanDisk nl blocks temp) (compactVia c mk (cleanDisk nl blocks temp) ep order bs) i j k
         = (cleanDisk nl blocks temp).applyAll (compactVia c mk (cleanDisk nl blocks temp) ep order bs)
 
+/-- main file as a crash can leave it: a clean file followed by nothing or the beginning of one more block -/
+def tornMain (nl : Nat) (blocks : List Block) (b : Block) (r : Nat) : List Cell :=
+  fileCells nl blocks ++ (blockCells b).take r
+
+/-- … and on a main file with a torn tail (the input of the Load self-heal after a crash, or of a
+    CLI run on a crash image): the compaction either does not start (the file does not load) or
+    leaves a file that loads to what the torn file loaded to. -/
+def PreservesTorn (c : Cfg) (ep : EP) : Prop :=
+  ∀ (mk : Mk), MkOk mk → ∀ (nl bs : Nat) (blocks : List Block), (∀ b ∈ blocks, b.WF) →
+  ∀ (b : Block), b.WF → ∀ r, r < 16 + b.plen →
+  ∀ (temp : Option (List Cell)) (order : List (Nat × Nat)),
+    let d := mainDisk (tornMain nl blocks b r) temp
+    (mainIndex c d = none ∧ compactVia c mk d ep order bs = []) ∨
+    ∃ idx, mainIndex c d = some idx ∧ (Covers order idx →
+      ∃ idx', mainIndex c (d.applyAll (compactVia c mk d ep order bs)) = some idx' ∧ idx'.Same idx)
+
 /-- The full-strength statement. -/
 structure Holds (c : Cfg) : Prop where
   preserves : ∀ ep, Preserves c ep
+  preservesTorn : ∀ ep, PreservesTorn c ep
   atomic : Atomic c
 
 /-! ### Theorems -/
@@ -70,6 +87,33 @@ theorem compact_preserves (c : Cfg) (ep : EP) (hrm : ep.rmFirst c = true) : Pres
     cases h : Index.get (Index.replay [] (entsOf blocks)) k <;> simp [Index.get_nil]
   · simp only [hk, if_false, Index.get_nil]
     exact (Index.get_eq_none_of_not_mem _ _ (fun hm => hk ((hcov k).mpr hm))).symm
+
+theorem mainNl_torn (nl : Nat) (blocks : List Block) (b : Block) (r : Nat) (t : Option (List Cell)) :
+    mainNl (mainDisk (tornMain nl blocks b r) t) = nl := by
+  simp [mainNl, mainDisk, tornMain, fileCells, List.append_assoc, headerOf_file]
+
+/-- The same on a main file with a torn tail. -/
+theorem compact_preserves_torn (c : Cfg) (ep : EP) (hrm : ep.rmFirst c = true) : PreservesTorn c ep := by
+  intro mk hmk nl bs blocks hwf b hb r hr temp order
+  simp only
+  cases hm : mainIndex c (mainDisk (tornMain nl blocks b r) temp) with
+  | none => left; exact ⟨rfl, by simp [compactVia, hm]⟩
+  | some idx =>
+    right
+    refine ⟨idx, rfl, ?_⟩
+    intro hcov
+    simp only [compactVia, hm, hrm]
+    obtain ⟨nbs, hnwf, hents, hfin⟩ := compactOps_rm_gen c mk hmk nl bs (tornMain nl blocks b r) temp
+      (fun t => mainNl_torn nl blocks b r t) (liveEntries idx order)
+    rw [hfin]
+    refine ⟨_, mainIndex_clean c nl nbs hnwf none, ?_⟩
+    intro k
+    rw [hents, liveEntries_fst, Index.get_replay_puts]
+    by_cases hk : k ∈ order.map (·.1)
+    · simp only [hk, if_true]
+      cases h : Index.get idx k <;> simp [Index.get_nil]
+    · simp only [hk, if_false, Index.get_nil]
+      exact (Index.get_eq_none_of_not_mem _ _ (fun hm' => hk ((hcov k).mpr hm'))).symm
 
 /-- the encoder used by the closed witnesses: one payload byte per block -/
 def mk0 : Mk := fun es => { hdr := [1, 0, 0, 0, 0, 0, 0, 0, 0, 0, 0, 0, 0, 0, 0, 0], plen := 1, ents := es }
@@ -196,13 +240,13 @@ example : MkOk mk0 ∧ (∀ b ∈ [mk0 [Op.put 1 1, Op.put 2 5], mk0 [Op.del 1]]
 /-- what is proved whatever the facts: entry points that remove the temp preserve the live
     set; with the fsync before the rename every crash image is old or new -/
 def Partial (c : Cfg) : Prop :=
-  (∀ ep, ep.rmFirst c = true → Preserves c ep) ∧ (c.closeFsyncs = true → Atomic c)
+  (∀ ep, ep.rmFirst c = true → Preserves c ep ∧ PreservesTorn c ep) ∧ (c.closeFsyncs = true → Atomic c)
 
 theorem C03_partial (c : Cfg) : Partial c :=
-  ⟨fun ep h => compact_preserves c ep h, fun h => compact_crash_atomic c h⟩
+  ⟨fun ep h => ⟨compact_preserves c ep h, compact_preserves_torn c ep h⟩, fun h => compact_crash_atomic c h⟩
 
 theorem holds_of_good (c : Cfg) (h1 : ∀ ep : EP, ep.rmFirst c = true) (h2 : c.closeFsyncs = true) : Holds c :=
-  ⟨fun ep => compact_preserves c ep (h1 ep), compact_crash_atomic c h2⟩
+  ⟨fun ep => compact_preserves c ep (h1 ep), fun ep => compact_preserves_torn c ep (h1 ep), compact_crash_atomic c h2⟩
 
 structure Facts where
   /-- `CleanupCompactionTemp` precedes `NewCompactor(...).Compact()` in runCompactionLocked -/
@@ -233,11 +277,12 @@ structure Facts where
       configuration); they steer the correspondence driver on images with a damaged temp -/
   shortHeaderIsEOF : Tri
   tornDataIsEOF : Tri
+  truncatesTornTail : Tri
   deriving Repr
 
 def cfgOf (f : Facts) : Cfg :=
   { r := ⟨f.shortHeaderIsEOF.isYes, f.tornDataIsEOF.isYes, false⟩, syncFsyncs := true, closeFsyncs := f.closeFsyncs.isYes,
-    truncatesTornTail := false, loadCleansTemp := f.loadCleansTemp.isYes,
+    truncatesTornTail := f.truncatesTornTail.isYes, loadCleansTemp := f.loadCleansTemp.isYes,
     rmTempLocked := f.rmTempLocked.isYes, rmTempFromIndex := f.rmTempFromIndex.isYes,
     rmTempCompactor := f.rmTempCompactor.isYes }
 
@@ -246,7 +291,7 @@ def modelApplies (f : Facts) : Bool :=
   f.cliUsesCompactorOnly.isYes && f.triggersUseLocked.isYes && f.loadUsesFromIndex.isYes &&
   f.rmTempLocked != .unknown && f.rmTempFromIndex != .unknown && f.rmTempCompactor != .unknown &&
   f.loadCleansTemp != .unknown && f.closeFsyncs != .unknown &&
-  f.shortHeaderIsEOF != .unknown && f.tornDataIsEOF != .unknown
+  f.shortHeaderIsEOF != .unknown && f.tornDataIsEOF != .unknown && f.truncatesTornTail != .unknown
 
 def findings (f : Facts) : List String :=
   (if EP.rmFirst (cfgOf f) .locked then [] else ["C03-locked-stale-temp"]) ++
@@ -257,6 +302,8 @@ def findings (f : Facts) : List String :=
 def classify (f : Facts) : Verdict :=
   if !modelApplies f then .undetermined "a compaction fact was not recognised (the model does not describe this code)"
   else if findings f = [] then .holds
+  else if f.truncatesTornTail.isYes then
+    .undetermined "an entry point does not remove the temp and the open truncates: no witness theorem for this combination"
   else .violated (findings f)
 
 theorem ite_nil_iff (b : Bool) (x : String) : (if b = true then ([] : List String) else [x]) = [] ↔ b = true := by
@@ -276,11 +323,13 @@ theorem classify_sound (f : Facts) : (classify f).Sound (Holds (cfgOf f)) (Parti
       · exact h1
       · exact h2
       · exact h3
-    · rename_i hfnd
+    · split
+      · trivial
+      rename_i hfnd htr
       refine ⟨?_, C03_partial _⟩
       intro hh
       apply hfnd
-      have hc : (cfgOf f).truncatesTornTail = false := rfl
+      have hc : (cfgOf f).truncatesTornTail = false := by simpa [cfgOf] using htr
       simp only [findings, List.append_eq_nil_iff, ite_nil_iff]
       refine ⟨⟨⟨?_, ?_⟩, ?_⟩, ?_⟩
       · cases h : EP.rmFirst (cfgOf f) .locked
